@@ -35,8 +35,12 @@ ASSUMPTIONS = [
     'surrogate predictions uninterpreted with V > 0; exact reals',
     'RandMaxVar: known finding C11/randmaxvar-leaves-bounds (probed separately)',
 ]
-OUTSIDE = ['gradients of MaxVar / ExpIntVar (Owen\'s T, skew-normal cdf calculus)', 'whether L-BFGS-B respects its bounds',
+OUTSIDE = ['the model part of the MaxVar gradient (derivative of the skew-normal cdf / Owen\'s T) and the ExpIntVar gradient: for '
+           'MaxVar only the product-rule structure in the prior is claimed', 'whether L-BFGS-B respects its bounds',
            'GP hyper-parameter optimisation', 'dimension > 2']
+
+
+import scipy.stats as _ss_real
 
 
 class GMod:
@@ -114,7 +118,7 @@ def env(ctx, opt):
     _Trunc.counter = 0
     so = _Sub(_so, {'minimize': opt.minimize})
     sc = type('sc', (), {'optimize': so})()
-    ssf = SSFacade(extra={'truncnorm': _Trunc, 'uniform': _UniformArr})
+    ssf = SSFacade(extra={'truncnorm': _Trunc, 'uniform': _UniformArr, 'skewnorm': _Skew})
     if not ctx.symbolic:
         return patched([(bou, {'scipy': sc}), (acqm, {'ss': ssf})])
     fac = NPFacade(random=_Sub(np.random, {'RandomState': lambda seed=None: SymRandomState('acq%s' % seed)}))
@@ -245,6 +249,86 @@ def h_randmaxvar(ctx, n_samples):
 
 # ---------------------------------------------------------------- evidence bookkeeping
 
+# ---------------------------------------------------------------- MaxVar gradient: product-rule structure
+
+class _Skew:
+    """scipy.stats.skewnorm.cdf as an uninterpreted function of (standardised argument, shape)."""
+
+    @staticmethod
+    def cdf(x, a, loc=0, scale=1):
+        ctx = core.cur()
+        if not ctx.symbolic:
+            return _ss_real.skewnorm.cdf(x, a, loc=loc, scale=scale)
+        z = (x - loc) / scale
+        z, a = np.broadcast_arrays(np.asarray(z, dtype=object), np.asarray(a, dtype=object))
+        out = np.empty(z.shape, dtype=object)
+        fo = out.reshape(-1)
+        for i, (zi, ai) in enumerate(zip(z.reshape(-1), a.reshape(-1))):
+            fo[i] = ctx.apply_uf('SKEWCDF', [zi, ai])
+        return out
+
+
+class PriorUF:
+    """Prior with uninterpreted density and log-density gradient (flat=True: density 1, gradient 0)."""
+
+    def __init__(self, ctx, d, flat=False):
+        self.ctx, self.d, self.flat = ctx, d, flat
+
+    def _rows(self, x):
+        return [list(r) for r in np.asarray(x, dtype=object if self.ctx.symbolic else float).reshape(-1, self.d)]
+
+    def pdf(self, x):
+        ctx = self.ctx
+        if self.flat:
+            return ctx.array([1 for _ in self._rows(x)])
+        out = []
+        for r in self._rows(x):
+            v = ctx.apply_uf('PRIORPDF%d' % self.d, r)
+            if ctx.symbolic:
+                ctx._fact(v.t > 0)
+            else:
+                v = abs(v) + 0.05
+            out.append(v)
+        return ctx.array(out)
+
+    def gradient_logpdf(self, x):
+        ctx = self.ctx
+        if self.flat:
+            return ctx.array([[0 for _ in range(self.d)] for _ in self._rows(x)])
+        return ctx.array([[ctx.apply_uf('DLOGPRIOR%d_%d' % (self.d, i), r) for i in range(self.d)] for r in self._rows(x)])
+
+
+def h_maxvar_gradient(ctx, d, cls='MaxVar'):
+    """f = p(theta)^2 * Var_a(theta): the gradient must be 2 p^2 (grad log p) Var_a + p^2 grad Var_a (product rule with
+    grad p = p grad log p), where Var_a and grad Var_a are what the same code returns under a flat prior."""
+    bounds = mk_bounds(ctx, d)
+    names = ['p%d' % i for i in range(d)]
+    opt = AnyOptimizer(ctx)
+    ctx.assume_nonzero_divisors = True
+    q = [ctx.real('q%d' % i) for i in range(d)]
+    eps = ctx.real('eps')
+    with env(ctx, opt):
+        model = GMod(ctx, bounds, names)
+        model.noise = ctx.real('noise', 0, None, lo_open=True)
+        K = getattr(acqm, cls)
+        acq = K(model, prior=PriorUF(ctx, d), seed=3)
+        flat = K(model, prior=PriorUF(ctx, d, flat=True), seed=3)
+        acq.eps = flat.eps = eps
+        x = ctx.array([q])
+        val = acq.evaluate(x)
+        grad = acq.evaluate_gradient(x)
+        v0 = flat.evaluate(x)
+        g0 = flat.evaluate_gradient(x)
+    P = ctx.apply_uf('PRIORPDF%d' % d, q)
+    if not ctx.symbolic:
+        P = abs(P) + 0.05
+    ctx.claim('shapes', np.shape(val) == (1, 1) and np.shape(grad) == (1, d))
+    ctx.claim_poly('value_is_squared_prior_density_times_flat_prior_value', val[0, 0], P * P * v0[0, 0])
+    for i in range(d):
+        L = ctx.apply_uf('DLOGPRIOR%d_%d' % (d, i), q)
+        ctx.claim_poly('gradient_%d_obeys_the_product_rule_in_the_prior' % i, grad[0, i], 2 * P * P * L * v0[0, 0] + P * P * g0[0, i])
+
+
 class RecModel:
     """Recording surrogate: keeps the (parameters, target) pairs it is trained on."""
 
@@ -368,6 +452,8 @@ HARNESSES = [
     H('lcbsc_d1_n2_scalar', h_acquire_lcbsc, dict(d=1, n=2, noise='scalar'), bounds='LCBSC dim 1, 2 points, scalar noise variance'),
     H('lcbsc_d2_n1_per_parameter', h_acquire_lcbsc, dict(d=2, n=1, noise='per_parameter'), bounds='LCBSC dim 2, per-parameter noise (one zero)'),
     H('lcbsc_d2_n2_zero', h_acquire_lcbsc, dict(d=2, n=2, noise='zero'), bounds='LCBSC dim 2, noise variance 0'),
+    H('maxvar_gradient_d1', h_maxvar_gradient, dict(d=1), bounds='MaxVar dim 1, one query point, symbolic threshold/noise/prior'),
+    H('maxvar_gradient_d2', h_maxvar_gradient, dict(d=2), bounds='MaxVar dim 2, one query point'),
     H('uniform_d2_n2', h_uniform, dict(d=2, n=2), bounds='UniformAcquisition dim 2, 2 points'),
     H('randmaxvar_metropolis', h_randmaxvar, dict(n_samples=2), bounds='RandMaxVar dim 1, metropolis with 2 samples, 1 acquisition',
       finding='C11/randmaxvar-leaves-bounds', finding_claims=('acquired_point_inside_bounds',)),
